@@ -324,6 +324,21 @@ for _cid, _m in {
     "C17": {"packets_arriving_together_with_the_connack_of_a_later_connection": 5000},
 }.items():
     EXTRA_MIN.setdefault(_cid, {}).update(_m)
+# round 13
+for _cid, _m in {
+    "C01": {"exchanges_finished_before_the_connection_was_lost": 100},
+    "C02": {"neighbouring_identifier_cases": 30},
+    "C03": {"long_runs_of_small_packets": 20},
+    "C04": {"packets_with_a_four_byte_remaining_length": 10},
+    "C05": {"unwritten_request_cases": 25},
+    "C08": {"backlog_cases_behind_a_four_byte_remaining_length": 10},
+    "C12": {"abandoned_oversized_requests": 80},
+    "C13": {"auth_challenge_sizes_checked": 12},
+    "C14": {"waiting_when_the_connection_ended_cases": 50},
+    "C15": {"dropped_stream_next_to_live_ones_cases": 40},
+    "C17": {"connections_ended_by_the_users_disconnect": 2000},
+}.items():
+    EXTRA_MIN.setdefault(_cid, {}).update(_m)
 for _cid, _m in EXTRA_MIN.items():
     for _tier in ("quick", "thorough"):
         CHECKS[_cid]["min_observed"].setdefault(_tier, {})
